@@ -1332,3 +1332,345 @@ pub fn information_adapter(a: &ShardArgs, r: &mut Rng) {
     want.push("clear_restart_iin".into());
     compare(a, "outstation_information", "all", &got, &want);
 }
+
+// ---- K3: promise completion -> completion / failure callbacks -------------------------------------
+
+use dnp3::master::{
+    AuthKey, CommandError, CommandResponseError, FileError, FileHandle, FileInfo, OpenFile, TaskError, TimeSyncError,
+    WriteError,
+};
+use sfio_promise::FutureType;
+
+extern "C" fn pc_nothing(result: c_int, ctx: *mut c_void) {
+    unsafe { log(ctx) }.push(format!("complete {}", norm(&ffi::Nothing::from(result))));
+}
+extern "C" fn pc_u32(result: u32, ctx: *mut c_void) {
+    unsafe { log(ctx) }.push(format!("complete {result}"));
+}
+extern "C" fn pc_u64(result: u64, ctx: *mut c_void) {
+    unsafe { log(ctx) }.push(format!("complete {result}"));
+}
+extern "C" fn pc_open(result: ffi::OpenFile, ctx: *mut c_void) {
+    unsafe { log(ctx) }.push(format!(
+        "complete handle{} size{} block{}",
+        result.file_handle, result.file_size, result.max_block_size
+    ));
+}
+fn f_perm(p: &ffi::Permissions) -> String {
+    let b = |x: bool| if x { '1' } else { '0' };
+    [&p.world, &p.group, &p.owner]
+        .iter()
+        .map(|s| format!("{}{}{}", b(s.execute), b(s.write), b(s.read)))
+        .collect::<Vec<_>>()
+        .join("/")
+}
+fn n_perm(p: &dnp3::app::Permissions) -> String {
+    let b = |x: bool| if x { '1' } else { '0' };
+    [&p.world, &p.group, &p.owner]
+        .iter()
+        .map(|s| format!("{}{}{}", b(s.execute), b(s.write), b(s.read)))
+        .collect::<Vec<_>>()
+        .join("/")
+}
+fn f_file_info(i: &ffi::FileInfo) -> String {
+    format!(
+        "{:?} {} size{} t{} {}",
+        i.file_name().to_string_lossy(),
+        norm(&i.file_type()),
+        i.size,
+        i.time_created,
+        f_perm(&i.permissions)
+    )
+}
+fn n_file_info(i: &FileInfo) -> String {
+    let ty = match i.file_type {
+        dnp3::app::FileType::Directory => "directory",
+        dnp3::app::FileType::File => "simple",
+        dnp3::app::FileType::Other(_) => "other",
+    };
+    format!(
+        "{:?} {} size{} t{} {}",
+        i.name,
+        ty,
+        i.size,
+        i.time_created.raw_value(),
+        n_perm(&i.permissions)
+    )
+}
+extern "C" fn pc_info(result: ffi::FileInfo, ctx: *mut c_void) {
+    unsafe { log(ctx) }.push(format!("complete {}", f_file_info(&result)));
+}
+extern "C" fn pc_dir(result: *mut crate::FileInfoIterator, ctx: *mut c_void) {
+    let l = unsafe { log(ctx) };
+    l.push("complete listing".into());
+    while let Some(i) = unsafe { crate::master::file_info_iterator_next(result) } {
+        l.push(format!("entry {}", f_file_info(i)));
+    }
+}
+extern "C" fn pf(error: c_int, ctx: *mut c_void) {
+    unsafe { log(ctx) }.push(format!("failure {error}"));
+}
+
+fn some_file_info(r: &mut Rng) -> FileInfo {
+    let set = |r: &mut Rng| dnp3::app::PermissionSet {
+        execute: r.bool(),
+        write: r.bool(),
+        read: r.bool(),
+    };
+    FileInfo {
+        name: format!("dir/file-{}.bin", r.u16()),
+        file_type: match r.below(3) {
+            0 => dnp3::app::FileType::Directory,
+            1 => dnp3::app::FileType::File,
+            _ => dnp3::app::FileType::Other(r.u16() | 2),
+        },
+        size: r.u64() as u32,
+        time_created: Timestamp::new(r.u64() & 0x0000_FFFF_FFFF_FFFF),
+        permissions: dnp3::app::Permissions {
+            world: set(r),
+            group: set(r),
+            owner: set(r),
+        },
+    }
+}
+
+pub fn promise_adapters(a: &ShardArgs, r: &mut Rng) {
+    let mut got: Box<Log> = Box::new(vec![]);
+    let mut want: Log = vec![];
+    let ctx = &mut *got as *mut Log as *mut c_void;
+    let task_errors = super::all_task_errors();
+    let mut drops_ok = 0u64;
+    macro_rules! on_drop_is_shutdown {
+        ($cb:ident, $res:ty) => {{
+            let x: $res = <ffi::$cb as FutureType<$res>>::on_drop();
+            out::eval(1);
+            let txt = format!("{x:?}").to_lowercase();
+            if x.is_ok() || !txt.contains("shutdown") {
+                viol(
+                    a,
+                    "callback_mismatch",
+                    concat!("promise_dropped|", stringify!($cb)),
+                    format!("a dropped promise of {} resolves to {x:?}", stringify!($cb)),
+                );
+            } else {
+                drops_ok += 1;
+            }
+        }};
+    }
+    // one macro per shape: (callback struct, completion callback, result type, ok values with their rendering, errors with the binding error type)
+    macro_rules! promise {
+        ($cb:ident, $complete:ident, $ok:ty, $err:ty, $ffi_err:ident, $oks:expr, $errs:expr) => {{
+            let oks: Vec<($ok, String)> = $oks;
+            for (v, txt) in oks {
+                let cb = ffi::$cb {
+                    on_complete: Some($complete),
+                    on_failure: Some(pf),
+                    on_destroy: None,
+                    ctx,
+                };
+                want.push(format!("complete {txt}"));
+                <ffi::$cb as FutureType<Result<$ok, $err>>>::complete(cb, Ok(v));
+            }
+            let errs: Vec<$err> = $errs;
+            for e in errs {
+                let cb = ffi::$cb {
+                    on_complete: Some($complete),
+                    on_failure: Some(pf),
+                    on_destroy: None,
+                    ctx,
+                };
+                let f: ffi::$ffi_err = e.clone().into();
+                let code: c_int = f.into();
+                want.push(format!("failure {code}"));
+                <ffi::$cb as FutureType<Result<$ok, $err>>>::complete(cb, Err(e));
+            }
+            on_drop_is_shutdown!($cb, Result<$ok, $err>);
+        }};
+    }
+    let file_errors = |task_errors: &Vec<TaskError>| -> Vec<FileError> {
+        let mut v = vec![
+            FileError::BadResponse,
+            FileError::BadStatus(dnp3::app::FileStatus::PermissionDenied),
+            FileError::NoPermission,
+            FileError::BadBlockNum,
+            FileError::AbortByUser,
+            FileError::MaxLengthExceeded,
+            FileError::WrongHandle,
+        ];
+        v.extend(task_errors.iter().map(|e| FileError::TaskError(*e)));
+        v
+    };
+    promise!(
+        ReadTaskCallback,
+        pc_nothing,
+        (),
+        TaskError,
+        ReadError,
+        vec![((), "nothing".into())],
+        task_errors.clone()
+    );
+    promise!(
+        LinkStatusCallback,
+        pc_nothing,
+        (),
+        TaskError,
+        LinkStatusError,
+        vec![((), "nothing".into())],
+        task_errors.clone()
+    );
+    promise!(
+        RestartTaskCallback,
+        pc_u64,
+        std::time::Duration,
+        TaskError,
+        RestartError,
+        [0u64, 1, 999, 65_535_000, r.u64() % 100_000_000]
+            .iter()
+            .map(|ms| (std::time::Duration::from_millis(*ms), ms.to_string()))
+            .collect(),
+        task_errors.clone()
+    );
+    promise!(
+        EmptyResponseCallback,
+        pc_nothing,
+        (),
+        WriteError,
+        EmptyResponseError,
+        vec![((), "nothing".into())],
+        {
+            let mut v: Vec<WriteError> = task_errors.iter().map(|e| WriteError::Task(*e)).collect();
+            v.push(WriteError::IinError(Iin2 { value: 4 }));
+            v
+        }
+    );
+    promise!(
+        CommandTaskCallback,
+        pc_nothing,
+        (),
+        CommandError,
+        CommandError,
+        vec![((), "nothing".into())],
+        {
+            let mut v: Vec<CommandError> = vec![];
+            for e in &task_errors {
+                v.push(CommandError::Task(*e));
+                v.push(CommandError::Response(CommandResponseError::Request(*e)));
+            }
+            v.push(CommandError::Response(CommandResponseError::BadStatus(
+                dnp3::app::control::CommandStatus::Timeout,
+            )));
+            v.push(CommandError::Response(CommandResponseError::HeaderCountMismatch));
+            v.push(CommandError::Response(CommandResponseError::HeaderTypeMismatch));
+            v.push(CommandError::Response(CommandResponseError::ObjectCountMismatch));
+            v.push(CommandError::Response(CommandResponseError::ObjectValueMismatch));
+            v
+        }
+    );
+    promise!(
+        TimeSyncTaskCallback,
+        pc_nothing,
+        (),
+        TimeSyncError,
+        TimeSyncError,
+        vec![((), "nothing".into())],
+        {
+            let mut v: Vec<TimeSyncError> = task_errors.iter().map(|e| TimeSyncError::Task(*e)).collect();
+            v.extend([
+                TimeSyncError::ClockRollback,
+                TimeSyncError::SystemTimeNotUnix,
+                TimeSyncError::BadOutstationTimeDelay(9),
+                TimeSyncError::Overflow,
+                TimeSyncError::StillNeedsTime,
+                TimeSyncError::SystemTimeNotAvailable,
+            ]);
+            v
+        }
+    );
+    promise!(
+        FileOperationCallback,
+        pc_nothing,
+        (),
+        FileError,
+        FileError,
+        vec![((), "nothing".into())],
+        file_errors(&task_errors)
+    );
+    promise!(
+        FileAuthCallback,
+        pc_u32,
+        AuthKey,
+        FileError,
+        FileError,
+        [0u32, 1, 0xFFFF_FFFF, r.u64() as u32]
+            .iter()
+            .map(|k| (AuthKey::new(*k), k.to_string()))
+            .collect(),
+        file_errors(&task_errors)
+    );
+    promise!(
+        FileOpenCallback,
+        pc_open,
+        OpenFile,
+        FileError,
+        FileError,
+        (0..6)
+            .map(|_| {
+                let (h, s, b) = (r.u64() as u32, r.u64() as u32, r.u16());
+                (
+                    OpenFile {
+                        file_handle: FileHandle::new(h),
+                        file_size: s,
+                        max_block_size: b,
+                    },
+                    format!("handle{h} size{s} block{b}"),
+                )
+            })
+            .collect(),
+        file_errors(&task_errors)
+    );
+    promise!(
+        FileInfoCallback,
+        pc_info,
+        FileInfo,
+        FileError,
+        FileError,
+        (0..24)
+            .map(|_| {
+                let i = some_file_info(r);
+                let t = n_file_info(&i);
+                (i, t)
+            })
+            .collect(),
+        file_errors(&task_errors)
+    );
+    // a directory listing: the entries in order
+    for n in [0usize, 1, 2, 7] {
+        let items: Vec<FileInfo> = (0..n).map(|_| some_file_info(r)).collect();
+        want.push("complete listing".into());
+        for i in &items {
+            want.push(format!("entry {}", n_file_info(i)));
+        }
+        let cb = ffi::ReadDirectoryCallback {
+            on_complete: Some(pc_dir),
+            on_failure: Some(pf),
+            on_destroy: None,
+            ctx,
+        };
+        <ffi::ReadDirectoryCallback as FutureType<Result<Vec<FileInfo>, FileError>>>::complete(cb, Ok(items));
+    }
+    for e in file_errors(&task_errors) {
+        let cb = ffi::ReadDirectoryCallback {
+            on_complete: Some(pc_dir),
+            on_failure: Some(pf),
+            on_destroy: None,
+            ctx,
+        };
+        let f: ffi::FileError = e.into();
+        let code: c_int = f.into();
+        want.push(format!("failure {code}"));
+        <ffi::ReadDirectoryCallback as FutureType<Result<Vec<FileInfo>, FileError>>>::complete(cb, Err(e));
+    }
+    on_drop_is_shutdown!(ReadDirectoryCallback, Result<Vec<FileInfo>, FileError>);
+    out::count("callbacks_ok_promise_dropped", drops_ok);
+    compare(a, "promise_completion", "all", &got, &want);
+}
